@@ -579,6 +579,8 @@ class Walker:
       return Seq(l.items + r.items, l.kind)
     if isinstance(e.op, ast.Mult) and isinstance(l, Seq) and l.kind == "list":
       return mk("listrep", as_poly(l), as_poly(r))
+    if isinstance(e.op, ast.Mult) and isinstance(r, Seq) and r.kind == "list" and not isinstance(l, Seq):
+      return mk("listrep", as_poly(r), as_poly(l))          # n * [x] = [x] * n
     if isinstance(e.op, ast.Add) and isinstance(l, Const) and isinstance(r, Const) and isinstance(l.v, str) and isinstance(r.v, str):
       return Const(l.v + r.v)
     return self.binop(e.op, as_poly(l), as_poly(r), e)
